@@ -21,9 +21,11 @@ TRUSTED_BASE = [
     "Coq 8.16.1 kernel (coqc; vm_compute used in Examples only; no native_compute)",
     "axioms: none (Print Assumptions of every pinned theorem = 'Closed under the global context')",
     "extraction: ExtrOcamlBasic only (no Extract Constant/Inductive of our own); OCaml 4.13.1",
-    "hand-written glue: ocaml/driver.ml, harness/src/*.rs, tools/*.py (incl. the five source-to-Coq translators: "
+    "hand-written glue: ocaml/driver.ml, harness/src/*.rs, tools/*.py (incl. the six source-to-Coq translators: "
     "tools/srcconsts.py -> coq/SrcConsts.v, tools/srccodec.py -> coq/SrcCodec.v, tools/srcorder.py -> coq/SrcOrder.v, tools/srcshape.py -> coq/SharedShape.v, "
-    "tools/srcfns.py -> coq/SrcFns.v: Rust expression parser and the meaning FnDesc.reval gives the operators)",
+    "tools/srcfns.py -> coq/SrcFns.v: Rust expression parser and the meaning FnDesc.reval gives the operators, "
+    "tools/srchash.py -> coq/SrcHash.v: classification of the hasher.update / to_encoded_bytes! arguments of src/crypto/hash.rs, incl. the "
+    "syntactic judgement that an expression is a u64)",
     "cryptographic primitives (BLAKE2b-256, CRC-32, Ed25519) are parameters of the model; at run time "
     "both sides use the blake2 / crc32fast / ed25519-dalek crates",
     "dependency crates flat-tree, compact-encoding, random-access-* are modelled, not verified",
@@ -97,7 +99,7 @@ def coq_gate(prop_file, clean=False):
     lk = _lock()
     try:
         # source-derived input of the development: the crate's named constants as /repo/src states them now
-        import srcconsts, srccodec, srcorder, srcshape, srcfns, shutil
+        import srcconsts, srccodec, srcorder, srcshape, srcfns, srchash, shutil
         src_consts = srcconsts.regenerate(COQ)
         # ... and the wire codecs as /repo/src/encoding.rs states them now (field lists of the three macros)
         src_codecs = srccodec.regenerate(COQ)
@@ -105,6 +107,8 @@ def coq_gate(prop_file, clean=False):
         src_order = srcorder.regenerate(COQ)
         # ... and small pure expressions of /repo/src/oplog/mod.rs and /repo/src/core.rs (leader word, slot automaton, contiguous length, cadence)
         src_fns = srcfns.regenerate(COQ)
+        # ... and the hash layouts of /repo/src/crypto/hash.rs (ordered, classified arguments of the hasher / of to_encoded_bytes!)
+        src_hash = srchash.regenerate(COQ)
         srcshape.write_shape_v(srcshape.shared_shape())
         if clean:
             # thorough tier: a build from clean in a private copy of the sources (so that concurrent checks keep their
@@ -163,7 +167,7 @@ def coq_gate(prop_file, clean=False):
             shutil.rmtree(bdir, ignore_errors=True)
     return dict(ok=not problems, problems=problems, theorems=theorems, assumptions=assumptions,
                 wall_s=time.time() - t0, coqchk=(chk_out[-700:] if chk_out else None), src_consts=src_consts,
-                src_codecs=src_codecs, src_order=src_order, src_fns=src_fns,
+                src_codecs=src_codecs, src_order=src_order, src_fns=src_fns, src_hash=src_hash,
                 checker_cmd="cd /verif/coq && coq_makefile -f _CoqProject -o Makefile && make -j16 && coqc -Q . HC props/%s" % prop_file)
 
 
@@ -563,6 +567,7 @@ class Result:
                 **({"coqchk": gate["coqchk"]} if gate.get("coqchk") else {}),
                 **({"source_constants_tied": gate["src_consts"]} if gate.get("src_consts") else {}),
                 **({"source_order_tied": gate["src_order"]} if gate.get("src_order") and self.prop in ("C02", "C10", "C13") else {}),
+                **({"source_hash_layouts_tied": gate["src_hash"]} if gate.get("src_hash") and self.prop == "C05" else {}),
                 **({"source_functions_tied": [f for f in gate["src_fns"]
                                                if f["name"].startswith("contig_") == (self.prop == "C08")]}
                    if gate.get("src_fns") and self.prop in ("C06", "C08") else {}),
